@@ -66,7 +66,7 @@ impl Prop for C09 {
         let t2 = companion(set, idx, 0);
         let stores: [Vec<Rec>; 2] = [vec![rec(10, &title, 5)], vec![rec(20, &t2, 9), rec(10, &title, 5)]];
         for recs in stores.iter() {
-            let Ok(mut st) = cx.build(l, recs, None, Some((SENT_LS, SENT_RS))) else { return };
+            let Some(mut st) = cx.build_noted(l, recs, None, Some((SENT_LS, SENT_RS))) else { return };
             cx.state();
             // public tokenisation of each stored title
             let maps: Vec<(usize, Option<WordMap>)> = recs.iter().map(|r| (r.0, tok_record(l, &r.1).map(|t| word_map(&t)))).collect();
